@@ -117,6 +117,11 @@ func (p *vfLimProvider) jwks() *JWKSet {
 
 // sign mints an RS256 ID token that the middleware accepts
 func (p *vfLimProvider) sign(t testing.TB, claims map[string]interface{}) string {
+	return p.signKid(t, "vf-k1", claims)
+}
+
+// signKid: the same, naming another key in the header (a key the provider has retired: not in its key set any more)
+func (p *vfLimProvider) signKid(t testing.TB, kid string, claims map[string]interface{}) string {
 	enc := func(v interface{}) string {
 		b, err := json.Marshal(v)
 		if err != nil {
@@ -124,7 +129,7 @@ func (p *vfLimProvider) sign(t testing.TB, claims map[string]interface{}) string
 		}
 		return base64.RawURLEncoding.EncodeToString(b)
 	}
-	signed := enc(map[string]string{"alg": "RS256", "kid": "vf-k1", "typ": "JWT"}) + "." + enc(claims)
+	signed := enc(map[string]string{"alg": "RS256", "kid": kid, "typ": "JWT"}) + "." + enc(claims)
 	h := sha256.Sum256([]byte(signed))
 	sig, err := rsa.SignPKCS1v15(rand.Reader, p.key, crypto.SHA256, h[:])
 	if err != nil {
@@ -398,6 +403,12 @@ type vfLimSupport struct {
 	// a burst of rateLimit complete logins on an idle instance: each login is ONE full verification, all are admitted
 	LoginBurst         int `json:"login_burst"`
 	LoginBurstAdmitted int `json:"login_burst_admitted"`
+	// sessions whose ID token names a signing key the provider has retired arrive in numbers (one request each): they are
+	// not logins or refreshes; the rateLimit logins that follow at once are all admitted
+	StaleKeyRequests       int `json:"stale_key_requests"`
+	StaleKeyForwarded      int `json:"stale_key_forwarded"` // must be none (their tokens cannot be verified)
+	StaleKeyLogins         int `json:"stale_key_logins"`
+	StaleKeyLoginsAdmitted int `json:"stale_key_logins_admitted"`
 	RefreshControlForwarded bool `json:"refresh_control_forwarded"`
 	RefreshRefusedWhenDrained bool `json:"refresh_refused_when_drained"`
 	RefreshDrainedStatus int `json:"refresh_drained_status"`
@@ -520,6 +531,50 @@ func vfLimSupportRun(t testing.TB, p *vfLimProvider) vfLimSupport {
 			}
 		}
 	}
+	// sessions signed with a retired key, then logins
+	{
+		kinst := vfLimNew(t, p.srv.URL, n)
+		if vfLimWaitInit(kinst, 10*time.Second) {
+			vfLimSetJWKCache(kinst, &vfLimCountingJWKS{set: p.jwks()})
+			s.StaleKeyRequests = 3 * n
+			for i := 0; i < s.StaleKeyRequests; i++ {
+				now := time.Now().Unix()
+				tok := p.signKid(t, "vf-k0-retired", map[string]interface{}{
+					"iss": vfLimIssuer(kinst), "aud": "vf-client", "sub": fmt.Sprintf("vf-old-%d", i), "email": fmt.Sprintf("old%d@example.com", i),
+					"iat": now - 5, "exp": now + 3600, "nonce": fmt.Sprintf("o%d", i)})
+				cookies, err := vfLimMintSession(inst, fmt.Sprintf("old%d@example.com", i), tok)
+				if err != nil {
+					continue
+				}
+				req := httptest.NewRequest("GET", "http://app.example.test/page", nil)
+				for _, c := range cookies {
+					req.AddCookie(c)
+				}
+				rec := httptest.NewRecorder()
+				kinst.ServeHTTP(rec, req)
+				if rec.Code == 200 {
+					s.StaleKeyForwarded++
+				}
+			}
+			s.StaleKeyLogins = n
+			for i := 0; i < n; i++ {
+				csrf, nonce := fmt.Sprintf("kstate-%d", i), fmt.Sprintf("knonce-%d", i)
+				cookies, err := vfLimMintLogin(kinst, csrf, nonce)
+				if err != nil {
+					continue
+				}
+				req := httptest.NewRequest("GET", "http://app.example.test/cb?state="+csrf+"&code=n:"+nonce, nil)
+				for _, c := range cookies {
+					req.AddCookie(c)
+				}
+				rec := httptest.NewRecorder()
+				kinst.ServeHTTP(rec, req)
+				if rec.Code == 302 {
+					s.StaleKeyLoginsAdmitted++
+				}
+			}
+		}
+	}
 	// refreshes are verifications: one with a token available (control), one with the limiter drained
 	{
 		rinst := vfLimNew(t, p.srv.URL, n)
@@ -554,7 +609,8 @@ func vfLimSupportRun(t testing.TB, p *vfLimProvider) vfLimSupport {
 	s.OK = s.ControlVerified && s.ControlJWKSCalls >= 1 && s.Drained && s.RefusedErr && s.RefusedJWKSCalls == 0 &&
 		!s.RefusedCached && s.RefusedCacheGrowth == 0 && !s.RefusedReplayRecord && s.AcceptedAfterRefill &&
 		s.CachedOK == s.CachedCalls && !s.CachedConsumedTokens && s.SessionRequests > 0 && s.SessionForwarded == s.SessionRequests &&
-		s.RefreshControlForwarded && s.RefreshRefusedWhenDrained && s.LoginBurst > 0 && s.LoginBurstAdmitted == s.LoginBurst
+		s.RefreshControlForwarded && s.RefreshRefusedWhenDrained && s.LoginBurst > 0 && s.LoginBurstAdmitted == s.LoginBurst &&
+		s.StaleKeyLogins > 0 && s.StaleKeyLoginsAdmitted == s.StaleKeyLogins && s.StaleKeyForwarded == 0
 	if !s.OK && s.Why == "" {
 		switch {
 		case !s.ControlVerified || s.ControlJWKSCalls < 1 || !s.Drained:
@@ -567,6 +623,10 @@ func vfLimSupportRun(t testing.TB, p *vfLimProvider) vfLimSupport {
 			s.Why = fmt.Sprintf("requests on already authenticated sessions were limited: %d sessions issued by another instance, one request each on a fresh instance with rateLimit %d, only %d forwarded", s.SessionRequests, n, s.SessionForwarded)
 		case s.LoginBurstAdmitted != s.LoginBurst || s.LoginBurst == 0:
 			s.Why = fmt.Sprintf("logins were admitted below the configured rate: a burst of %d complete logins on an idle instance with rateLimit %d, only %d completed", s.LoginBurst, s.LoginBurst, s.LoginBurstAdmitted)
+		case s.StaleKeyForwarded != 0:
+			s.Why = fmt.Sprintf("%d of %d sessions whose ID token names a key that is not in the provider's key set were forwarded", s.StaleKeyForwarded, s.StaleKeyRequests)
+		case s.StaleKeyLoginsAdmitted != s.StaleKeyLogins || s.StaleKeyLogins == 0:
+			s.Why = fmt.Sprintf("logins were refused below the configured rate: after %d requests on sessions whose ID token names a retired signing key (no login, no refresh among them), only %d of %d logins on an instance with rateLimit %d completed", s.StaleKeyRequests, s.StaleKeyLoginsAdmitted, s.StaleKeyLogins, n)
 		case !s.RefreshControlForwarded:
 			s.Why = "harness precondition not met (a refresh with a limiter token available was not forwarded)"
 		case !s.RefreshRefusedWhenDrained:
